@@ -1,12 +1,12 @@
 (* C05 Hierarchical segment/record structure is matched greedily and completely.
-   Statements only; proofs in Proofs/Hier{Base,Sim,Main,Inst,Term}.v.
+   Statements only; proofs in Proofs/Hier{Base,Sim,Main,Inst,Term,Filter}.v.
 
    Model/Hier.v      hstep / edi_step: the explicit-stack machines of hierarchyReader.go and
                      edi/reader.go; flat_leaf / edi_leaf: the leaf matchers.
    Model/HierSpec.v  spec: the documented recursive greedy, non-backtracking matcher. *)
 From Coq Require Import List Arith Bool.
 Import ListNotations.
-From OV Require Import Model.Hier Model.HierSpec Proofs.HierBase Proofs.HierSim Proofs.HierMain Proofs.HierInst Proofs.HierTerm.
+From OV Require Import Model.Hier Model.HierSpec Proofs.HierBase Proofs.HierSim Proofs.HierMain Proofs.HierInst Proofs.HierTerm Proofs.HierFilter.
 
 (* run_fuel ds us = 2 * ((N * units + N) * (B + 1) + B) + 1 loop iterations, N = size of the
    hierarchy + 2, B = N * N + N. *)
@@ -65,6 +65,36 @@ Section Generic.
     hstep try_leaf st = Ret (OTerm t) st' ->
     st' = st /\ (t = TEof -> m_rest st = []) /\ (t = TErrUnexpected -> m_rest st <> []).
   Proof. exact (hstep_terminal try_leaf). Qed.
+  (* The FINAL_OUTPUT filter on the target is transparent to the matcher: with ANY filter [keep] on
+     completed target instances, the machine delivers exactly the unfiltered machine's deliveries
+     minus the rejected ones and ends with the same terminal result -- occurrence counting, max
+     enforcement and the advance to the next declaration do not see the filter. *)
+  Theorem filter_transparent : forall (keep : inst -> bool) ds us,
+    Forall (WF try_leaf) ds -> count_tgts ds <= 1 ->
+    run (hstep_f keep try_leaf) (run_fuel ds us) (init ds us) =
+      filter_res keep (run (hstep try_leaf) (run_fuel ds us) (init ds us)) /\
+    run (hstep_f keep try_leaf) (run_fuel ds us) (init ds us) = filter_res keep (spec try_leaf ds us).
+  Proof. intros keep. exact (filter_transparent_full keep try_leaf). Qed.
+
+  (* EDI: for every run of the unfiltered machine that ends without panic (guard or not) *)
+  Theorem edi_filter_transparent : forall (keep : inst -> bool) fuel ds us,
+    not_panic (snd (run (edi_step try_leaf) fuel (init ds us))) ->
+    snd (run (edi_step try_leaf) fuel (init ds us)) <> TOutOfFuel ->
+    run (edi_step_f keep try_leaf) fuel (init ds us) =
+    filter_res keep (run (edi_step try_leaf) fuel (init ds us)).
+  Proof. intros keep. exact (edi_filter_transparent_run keep try_leaf). Qed.
+
+  Theorem edi_filter_eq_spec_nested : forall (keep : inst -> bool) ds us,
+    Forall (WF try_leaf) ds -> count_tgts ds <= 1 -> no_root_repeat try_leaf ds us ->
+    run (edi_step_f keep try_leaf) (run_fuel ds us) (init ds us) = filter_res keep (spec try_leaf ds us).
+  Proof. intros keep. exact (edi_filter_transparent_full keep try_leaf). Qed.
+
+  (* the machines without a filter (targetXPathExpr == nil) are the filtered ones with the filter
+     that keeps everything *)
+  Theorem nofilter_is_plain : forall st,
+    hstep_f (fun _ => true) try_leaf st = hstep try_leaf st /\
+    edi_step_f (fun _ => true) try_leaf st = edi_step try_leaf st.
+  Proof. intros st. split; [apply nofilter_hstep|apply nofilter_edi_step]. Qed.
 End Generic.
 
 (* the csv2/fixedlength2 matchers (rows-based, header/footer with read-ahead) and the EDI name
@@ -118,3 +148,17 @@ Example c05_nonvacuous :
   no_root_repeat edi_leaf [D 1 false true 1 (Some 1) (LName 1) []] [U 1 1; U 2 2] /\
   ~ no_root_repeat edi_leaf [D 1 false true 1 (Some 1) (LName 1) []] [U 1 1; U 1 2].
 Proof. vm_compute. repeat split; auto; try discriminate. Qed.
+
+(* the filter case the implementation was once wrong on (seeded): A (target, max 1); the first A
+   is rejected by the filter AND reaches max, a second A follows: nothing is delivered and the
+   second A is unexpected data -- not a delivery and clean EOF *)
+Example c05_filter_nonvacuous :
+  let ds := [D 100 false true 0 (Some 1) (LName 1) []] in
+  let us := [U 1 1; U 1 2] in
+  run_kind_f (keep_unflagged [1]) KHier ds us = ([], TErrUnexpected) /\
+  run_kind KHier ds us = ([I 100 [1] []], TErrUnexpected) /\
+  filter_res (keep_unflagged [1]) (spec_kind KHier ds us) = ([], TErrUnexpected) /\
+  (* EDI, inside the guard no_root_repeat: Z(0..1), G(1..1)[A (target, max 1)], word A A *)
+  run_kind_f (keep_unflagged [1]) KEdi [D 26 false false 0 (Some 1) (LName 26) []; D 101 true false 1 (Some 1) (LRows 0) ds] us
+    = ([], TErrUnexpected).
+Proof. vm_compute. repeat split; reflexivity. Qed.
